@@ -359,6 +359,97 @@ func methodCallsOn(fd *ast.FuncDecl, recv string) []string {
 	return out
 }
 
+// limitCalls lists "<func>: <call>" for every call in the package whose callee name sets a deadline, a size limit or a
+// socket option that can end or truncate a connection which neither peer has closed; calls inside the functions named in
+// `except` (implementations of the net.Conn interface itself) are not listed.
+func limitCalls(p *pkg, except map[string]bool) []string {
+	names := map[string]bool{"SetDeadline": true, "SetReadDeadline": true, "SetWriteDeadline": true, "SetLinger": true, "SetReadLimit": true,
+		"MaxBytesReader": true, "WithTimeout": true, "WithDeadline": true, "SetKeepAlive": true, "SetKeepAlivePeriod": true, "LimitReader": true}
+	fns := p.allFuncs()
+	var keys []string
+	for k := range fns {
+		keys = append(keys, k)
+	}
+	sort.Strings(keys)
+	var out []string
+	for _, k := range keys {
+		if except[k] {
+			continue
+		}
+		ast.Inspect(fns[k].Body, func(n ast.Node) bool {
+			if ce, ok := n.(*ast.CallExpr); ok {
+				if sel, ok := ce.Fun.(*ast.SelectorExpr); ok && names[sel.Sel.Name] {
+					out = append(out, k+": "+types.ExprString(ce.Fun))
+				}
+			}
+			return true
+		})
+	}
+	return out
+}
+
+// copyLoops describes every function literal in fd that calls io.Copy: "io.Copy(dst, src); x.Close(); ..." (the statements
+// of the literal that are plain calls, in order, deferred ones marked).
+func copyLoops(fd *ast.FuncDecl) []string {
+	var out []string
+	if fd == nil {
+		return nil
+	}
+	ast.Inspect(fd.Body, func(n ast.Node) bool {
+		fl, ok := n.(*ast.FuncLit)
+		if !ok {
+			return true
+		}
+		var parts []string
+		has := false
+		for _, st := range fl.Body.List {
+			switch x := st.(type) {
+			case *ast.ExprStmt:
+				if ce, ok := x.X.(*ast.CallExpr); ok {
+					txt := types.ExprString(ce)
+					if strings.HasPrefix(txt, "io.Copy(") {
+						has = true
+					}
+					parts = append(parts, txt)
+				}
+			case *ast.DeferStmt:
+				parts = append(parts, "defer "+types.ExprString(x.Call))
+			}
+		}
+		if has {
+			out = append(out, strings.Join(parts, "; "))
+		}
+		return true
+	})
+	return out
+}
+
+// deferredCalls lists the deferred calls written directly in fd's outermost function literal or body that contains the
+// io.Copy goroutines (not those inside the goroutines), in source order.
+func deferredCalls(body *ast.BlockStmt) []string {
+	var out []string
+	if body == nil {
+		return nil
+	}
+	var walk func(n ast.Node, depth int)
+	walk = func(n ast.Node, depth int) {
+		ast.Inspect(n, func(m ast.Node) bool {
+			if m == n {
+				return true
+			}
+			switch x := m.(type) {
+			case *ast.GoStmt:
+				return false // goroutines have their own defers
+			case *ast.DeferStmt:
+				out = append(out, types.ExprString(x.Call))
+			}
+			return true
+		})
+	}
+	walk(body, 0)
+	return out
+}
+
 func strLit(e ast.Expr) (string, bool) {
 	if bl, ok := e.(*ast.BasicLit); ok && bl.Kind == token.STRING {
 		s, err := strconv.Unquote(bl.Value)
@@ -907,6 +998,7 @@ func main() {
 		e.strs("targetURLAssignedFields", assigned, w.funcDecl("createShimChannel") != nil, []string{"Scheme", "Host"}, "agent/websockets createShimChannel: fields of targetURL that are overwritten before dialling")
 		caps := w.chanCaps(w.funcDecl("NewConnection"))
 		e.zs("connectionChanCaps", caps, w.funcDecl("NewConnection") != nil, []int64{10, 10}, "agent/websockets NewConnection: make(chan) capacities in source order (server, client)")
+		e.strs("websocketsLimitCalls", limitCalls(w, nil), true, nil, "agent/websockets: calls that set a deadline or a size limit on a shimmed connection or on a shim request (none)")
 		emit("Websockets", e)
 	}
 
@@ -951,6 +1043,30 @@ func main() {
 			sp, ok = strLit(ex)
 		}
 		e.strs("streamingPath", []string{sp}, ok, []string{""}, "tcpbridge const StreamingPath")
+		{
+			hd := t.funcDecl("Handler")
+			e.strs("bridgeBackendCopyLoops", copyLoops(hd), hd != nil, []string{"defer wg.Done(); io.Copy(backendConn, frontendConn); backendConn.Close()", "defer wg.Done(); io.Copy(frontendConn, backendConn); frontendConn.Close()"},
+				"tcpbridge connection.Handler: the two copy goroutines (each closes its destination when its source ends)")
+			var hb *ast.BlockStmt
+			if hd != nil {
+				hb = hd.Body
+			}
+			e.strs("bridgeBackendDefers", deferredCalls(hb), hd != nil, []string{"cancel()", "wsConn.Close()", "backendConn.Close()"}, "tcpbridge connection.Handler: deferred calls outside the goroutines, in source order (the websocket is closed on every return after the upgrade, also when the dial fails)")
+			if fp, err := loadPkg(*repo, "utils/tcpbridge/tcp-bridge-frontend"); err == nil {
+				mn := fp.funcDecl("main")
+				e.strs("bridgeFrontendCopyLoops", copyLoops(mn), mn != nil, []string{"defer wg.Done(); io.Copy(backendConn, conn); backendConn.Close()", "defer wg.Done(); io.Copy(conn, backendConn); conn.Close()"},
+					"tcp-bridge-frontend main: the two copy goroutines")
+			} else {
+				e.missing = append(e.missing, "bridgeFrontendCopyLoops")
+			}
+		}
+		lc := limitCalls(t, map[string]bool{"WebsocketNetConn.SetDeadline": true})
+		for _, d := range []string{"utils/tcpbridge/tcp-bridge-frontend", "utils/tcpbridge/tcp-bridge-backend"} {
+			if mp, err := loadPkg(*repo, d); err == nil {
+				lc = append(lc, limitCalls(mp, nil)...)
+			}
+		}
+		e.strs("bridgeLimitCalls", lc, true, nil, "utils/tcpbridge (connection and both binaries): calls that set a deadline, a read limit or a socket option on a bridged connection (none: the bridge ends a connection only when a peer does)")
 		emit("TcpBridge", e)
 	}
 
